@@ -929,11 +929,20 @@ class Element(object):
         if name in self.cls_attrs:
             if name == 'children':
                 children = []
-                if not isinstance(value, ElementList):
-                    children = value
+                if not (isinstance(value, ElementList) and value.element is self):
+                    # any iterable of elements - the child list of another element too: its children are
+                    # taken over one by one, the list object itself stays with its owner
+                    children = list(value)
                     value = ElementList(self)
                 previous = self.__dict__.get('children')
                 previous_last_index = self.__dict__.get('_last_child_index')
+                # where the children that belong to another element sit, in case they have to go back
+                origins = []
+                for c in children:
+                    p = getattr(c, '_parent', None)
+                    if p is not None and p is not self and any(x is c for x in p.children.list):
+                        origins.append((c, p, [x is c for x in p.children.list].index(True),
+                                        [x is c for x in p.children.indexes[c.name]].index(True)))
                 super(Element, self).__setattr__(name, value)
                 try:
                     for c in children:
@@ -944,9 +953,17 @@ class Element(object):
                         for c in value.list:
                             c._parent = None
                         super(Element, self).__setattr__(name, previous)
+                        for c in previous.list:
+                            c._parent = self
                         if previous_last_index is not None:
                             # a segment also forgets the field positions opened by the refused children
                             super(Element, self).__setattr__('_last_child_index', previous_last_index)
+                        # and the children taken from other elements go back where they were
+                        for c, p, position, by_name_position in sorted(origins, key=lambda o: o[2]):
+                            if not any(x is c for x in p.children.list):
+                                p.children.indexes.setdefault(c.name, []).insert(by_name_position, c)
+                                p.children.list.insert(position, c)
+                            c._parent = p
                     raise
             else:
                 super(Element, self).__setattr__(name, value)
